@@ -306,8 +306,12 @@ func main() {
 		os.Exit(1)
 	}
 	if len(infra) > 0 {
-		for _, l := range infra {
-			fmt.Fprintln(os.Stderr, "vcheck: infrastructure trouble:", l)
+		for i, l := range infra {
+			if i >= 3 {
+				fmt.Fprintf(os.Stderr, "vcheck: ... and %d more\n", len(infra)-3)
+				break
+			}
+			fmt.Fprintln(os.Stderr, "vcheck: infrastructure trouble:", tail(l, 1500))
 		}
 		os.Exit(2)
 	}
